@@ -87,6 +87,11 @@ CHECKS = {
          "40+ configurations (1-2 senders x 1-3 items via send / send_from / async sources, 1-3 receivers via receive(), async-for and the library's ServiceStub._send_messages, closer, unbounded and bounded buffers, cancellation or timeout of one receiver at any point). The small ones are enumerated completely, the rest up to a stated number of deviations from the default schedule. Every complete execution is judged: nothing invented or duplicated, per-sender order, everything sent before close received exactly once (or obtainable by a fresh receiver after a cancellation), no stranded receiver, later sends rejected, cancellation/timeout surfacing as such, no stray exception.",
          "schedules a real FIFO asyncio loop cannot produce are excluded by construction; OS threads are out of scope",
          "DESIGN.md §4 C12"),
+ "C03": ("translation_validation",
+         "exhaustive enumeration of schemas from a grammar (every field kind x cardinality and all pairs; every structure atom alone and all pairs of atoms; 4 package depths) plus the tests/inputs corpus, each compiled by protoc + the plugin from the working tree, imported, and compared field by field with the FileDescriptorSet protoc emits (read with google.protobuf's descriptor_pb2)",
+         "Per program: plugin exit status, importability, one class per message/enum (nested included), one field per schema field with equal number, proto type, cardinality from the resolved type hints, map key/value types, oneof group, optional flag, wrapper/Timestamp/Duration mapping, resolved class identity of references, enum numbers; generated classes are additionally compared with classes built through the public field API (same metadata, same bytes), which transfers the small-scope results to generated code. The bundled descriptor / well-known-type / plugin classes are compared with descriptor.proto, plugin.proto and the WKT descriptors on every shared field.",
+         "proto3 only; ruff replaced by an identity shim; class names are located with the implementation's naming function",
+         "DESIGN.md §4 C03"),
 }
 
 NOT_APPLICABLE_REASON = "check not built yet in this session; see DESIGN.md for the planned bounded-exhaustive exploration"
